@@ -11,7 +11,7 @@
 //! * `hostile-ex`/`hostile-rand`  peer byte strings (alphabet enumeration,
 //!               boundary dictionary, random) against a reference parser;
 //! * `custom-err` a user framer that returns `Err` (max frame length);
-//! * `anc-ex`/`anc-rand`/`anc-hostile`/`anc-huge`  control messages
+//! * `anc-ex`/`anc-rand`/`anc-hostile`  control messages
 //!               (see c13_anc.rs).
 
 #[path = "c13_anc.rs"]
@@ -276,6 +276,7 @@ pub struct Ctx {
     pub rng: Rng,
     pub thorough: bool,
     pub incomplete: bool,
+    pub tick: u64,
 }
 
 impl Ctx {
@@ -442,6 +443,13 @@ fn encode(ctx: &mut Ctx, fr: Fr, cd: Cd, specs: &[Spec], wscript: &[usize], mode
 /// One delivery of (a prefix of) the encoded stream. Returns false when a
 /// violation was recorded.
 fn deliver(ctx: &mut Ctx, e: &Encoded, frags: &[usize], cut: Option<usize>, mode_tag: &str) -> bool {
+    ctx.tick += 1;
+    if (cfg!(miri) || ctx.tick % 256 == 0) && ctx.rep.out_of_time() {
+        if mode_tag != "rnd" {
+            ctx.incomplete = true;
+        }
+        return false;
+    }
     let n = e.stream.len();
     let k = cut.unwrap_or(n).min(n);
     let data = &e.stream[..k];
@@ -451,7 +459,7 @@ fn deliver(ctx: &mut Ctx, e: &Encoded, frags: &[usize], cut: Option<usize>, mode
         Some(c) => c.to_string(),
         None => format!("cut={cc}"),
     };
-    let r = panics::catch(|| frame::decode_case(e.fr, e.cd, &e.exp, &e.bounds, data, frags));
+    let r = panics::catch(|| frame::decode_case(e.fr, e.cd, &e.exp, &e.bounds, data, frags, false));
     match r {
         Ok((None, st)) => {
             let trivial = fc == "whole" && cc == "full" && e.m <= 1 || n == 0;
@@ -805,21 +813,39 @@ fn part_rt_rand(ctx: &mut Ctx, iters: usize, max_len: usize) {
 // Hostile streams
 // ---------------------------------------------------------------------------
 
-fn hostile_expected(fr: Fr, cd: Cd, s: &[u8]) -> (Exp, Vec<usize>) {
+/// Expected items, frame ends, and whether the tail starts with a complete
+/// length header whose value cannot be added to the header width (the framer
+/// has to answer `Err`, and may keep answering it).
+fn hostile_expected(fr: Fr, cd: Cd, s: &[u8]) -> (Exp, Vec<usize>, bool) {
     let frames = fr.ref_parse(s);
     let bounds: Vec<usize> = frames.iter().map(|f| f.2).collect();
+    let tail = bounds.last().copied().unwrap_or(0);
+    let poisoned = match fr {
+        Fr::Len { w, be } if s.len() - tail >= w => {
+            let mut b = [0u8; 8];
+            let v = if be {
+                b[8 - w..].copy_from_slice(&s[tail..tail + w]);
+                u64::from_be_bytes(b)
+            } else {
+                b[..w].copy_from_slice(&s[tail..tail + w]);
+                u64::from_le_bytes(b)
+            };
+            (w as u64).checked_add(v).is_none_or(|t| t > usize::MAX as u64)
+        }
+        _ => false,
+    };
     let exp = match cd {
         Cd::Bytes => Exp::B(frames.iter().map(|f| Some(Bytes::copy_from_slice(&s[f.0..f.1]))).collect()),
         _ => Exp::V(frames.iter().map(|f| serde_json::from_slice::<Value>(&s[f.0..f.1]).ok()).collect()),
     };
-    (exp, bounds)
+    (exp, bounds, poisoned)
 }
 
 fn hostile_one(ctx: &mut Ctx, fr: Fr, cd: Cd, s: &[u8], frags: &[usize], class: &str) -> bool {
-    let (exp, bounds) = hostile_expected(fr, cd, s);
+    let (exp, bounds, poisoned) = hostile_expected(fr, cd, s);
     let replay = json!({"part": "hostile", "framer": fr.name(), "codec": cd.name(), "stream": hex(s), "frags": frags, "class": class});
     let fc = frag_class(fr, &bounds, frags, s.len());
-    match panics::catch(|| frame::decode_case(fr, cd, &exp, &bounds, s, frags)) {
+    match panics::catch(|| frame::decode_case(fr, cd, &exp, &bounds, s, frags, poisoned)) {
         Ok((None, st)) => {
             ctx.rep.max("max_reads_minus_len", st.reads as i64 - s.len() as i64);
             let partial = bounds.last().copied().unwrap_or(0) < s.len();
@@ -829,8 +855,11 @@ fn hostile_one(ctx: &mut Ctx, fr: Fr, cd: Cd, s: &[u8], frags: &[usize], class: 
                 cd.name(),
                 st.items_ok.min(3),
                 st.items_err.min(2),
-                if partial { "+partial" } else { "" }
+                if poisoned { "+rejected-header" } else if partial { "+partial" } else { "" }
             )));
+            if poisoned {
+                ctx.rep.floor("saw-overflowing-length-header-rejected", true);
+            }
             if ctx.rep.want_sample() && s.len() > 4 && frags.len() > 1 {
                 ctx.rep.sample(replay);
             }
@@ -935,7 +964,8 @@ fn len_dictionary(w: usize) -> Vec<(&'static str, u64)> {
     out
 }
 
-fn part_hostile_rand(ctx: &mut Ctx, iters: usize) {
+fn part_hostile_rand(ctx: &mut Ctx, iters: usize, dict_stride: usize) {
+    let mut di = 0usize;
     let frs = all_framers();
     let base = ctx.rng.fork(0x4853);
     // dictionary first (deterministic, sharded), then seeded random
@@ -945,8 +975,12 @@ fn part_hostile_rand(ctx: &mut Ctx, iters: usize) {
             for prefix in 0..2 {
                 for tail in [0usize, 1, w.saturating_sub(1), w, 9, 17] {
                     for cd in [Cd::Bytes, Cd::Json] {
-                        if !ctx.mine() {
+                        di += 1;
+                        if di % dict_stride.max(1) != 0 || !ctx.mine() {
                             continue;
+                        }
+                        if ctx.rep.out_of_time() {
+                            break;
                         }
                         let mut s = Vec::new();
                         if prefix == 1 {
@@ -1011,7 +1045,7 @@ fn part_hostile_rand(ctx: &mut Ctx, iters: usize) {
             }),
         };
         let n = s.len();
-        let (_, bounds) = hostile_expected(fr, cd, &s);
+        let (_, bounds, _) = hostile_expected(fr, cd, &s);
         let frags = random_frags(&mut r, fr, &bounds, n);
         hostile_one(ctx, fr, cd, &s, &frags, class);
     }
@@ -1106,6 +1140,7 @@ pub fn main(args: &Args) {
         rng: Rng::new(args.seed()).fork(args.shard() + 1),
         thorough: args.thorough(),
         incomplete: false,
+        tick: 0,
     };
     if let Some(path) = args.get("replay") {
         let text = std::fs::read_to_string(path).expect("replay file");
@@ -1138,15 +1173,11 @@ pub fn main(args: &Args) {
         anc::part_ex(&mut ctx, args);
         exhaustive_parts += 1;
     }
-    if has("anc-huge") {
-        let case = args.u64("huge-case", ctx.shard);
-        anc::part_huge(&mut ctx, case);
-    }
     if has("rt-rand") {
         part_rt_rand(&mut ctx, args.iters(2500, 40_000), args.usize("rnd-max-len", 70_000));
     }
     if has("hostile-rand") {
-        part_hostile_rand(&mut ctx, args.usize("hostile-iters", if t { 60_000 } else { 6000 }));
+        part_hostile_rand(&mut ctx, args.usize("hostile-iters", if t { 60_000 } else { 6000 }), args.usize("dict-stride", 1));
     }
     if has("anc-rand") {
         anc::part_rand(&mut ctx, args);
@@ -1154,7 +1185,8 @@ pub fn main(args: &Args) {
     if has("anc-hostile") {
         anc::part_hostile(&mut ctx, args);
     }
-    if exhaustive_parts > 0 {
+    // under Miri the enumerations are samples by intent; only native legs claim exhaustiveness
+    if exhaustive_parts > 0 && !cfg!(miri) {
         let inc = ctx.incomplete;
         ctx.rep.set_exhaustive(!inc);
     }
